@@ -7,6 +7,7 @@ import (
 	_ "verif/mc/props/c03"
 	_ "verif/mc/props/c05"
 	_ "verif/mc/props/c06"
+	_ "verif/mc/props/c07"
 	_ "verif/mc/props/c10"
 	_ "verif/mc/props/c13"
 	_ "verif/mc/props/c14"
